@@ -25,10 +25,13 @@ RULE = ("protocol leg: each run draws a continuation configuration (stepper natu
         "magnitudes inside [step_min,step_max], binding/non-binding clamps, target boxes hit early/late/never, max_members 1..12, "
         "max_retries 0..6, shrink policy none/legal/raising/growing/identity/tiny) and then, at every corrector call of the REAL "
         "backend loop, a fault decision (pass, reject, raise ConvergenceError, raise bare Exception, displaced pass, far pass that "
-        "leaves the target, NaN-residual pass, 3-tuple pass); thorough tier additionally enumerates exhaustively all accept/reject "
+        "leaves the target, NaN-residual pass, 3-tuple pass, pass that lands on the last member again); the backend instance may already "
+        "have produced another family; thorough tier additionally enumerates exhaustively all accept/reject "
         "sequences up to length 10 and all accept/reject/raise sequences up to length 7 over a grid of 24 configurations. "
         "e2e leg: real halo/Lyapunov/vertical families with forced failures of the real orbit corrector, members closed with an "
-        "independent scipy DOP853 propagation. A run is non-trivial iff at least one fault fired or a bound (target, member limit, "
+        "independent scipy DOP853 propagation; continuation states of one or two components in either listed order, corrections that raise, "
+        "are starved of iterations or come back flagged unconverged, a prior generate() on the same seed (other options, loose corrector, "
+        "same options under the other stepper, other state components), OrbitFamily.from_result as an observation point. A run is non-trivial iff at least one fault fired or a bound (target, member limit, "
         "clamp) was hit; distinct = distinct (configuration, outcome sequence) digests.")
 ASSUMPTIONS = [
     "the corrector is a stub in the protocol leg (its outcomes are the simulated faults); everything else in the loop is the real code",
